@@ -95,3 +95,15 @@ def run(ctx):
         ctx.guarded(r, lambda rule, label=label: V.check_loop(rule, label, only=("CopyReg", "CopyImm")))
     for kind in AC.ALL:
         ctx.guarded(r, AC.check_simple_builders, kind, only=("build_copy",))
+    # a trace entry says Left / Right about the op's operands *as the register tape orders them* and sits in
+    # the slot the choice pointer named when the op ran: simplification reads both in SSA order, so the
+    # allocator must keep operand order and native helpers must hand the choice pointer back unchanged
+    from .. import allocproto as AP_
+    from .. import asmcopy as AK_
+
+    r = ctx.rule("R9", "register allocation keeps each op's operand order (Left / Right mean the same before and after)", 21)
+    ctx.guarded(r, AP_.r4_protocol)
+    r = ctx.rule("R7b", "native call helpers of the tracing assemblers save and restore the choice pointer around every call", 4)
+    for kind in AC.TRACING:
+        for n in ("call_fn_unary", "call_fn_binary"):
+            ctx.guarded(r, AK_.check_call_helper, kind, n)
